@@ -4,7 +4,9 @@ Each mutant is a small, realistic edit of beanquery that compiles, keeps the
 pinned suite green (validated with tools/validate_mutants.py, results in
 selftest/manifest.json) and breaks a property; `expect` names the rule that
 must fire and a substring of the construct it must name.  Twins keep the
-behaviour and must not change the findings.  `regress/*.diff` re-introduce the
+behaviour and must not change the findings.  Three Connection mutants marked
+also_caught_by_suite are kept as regressions of R-CONNECTION only (the pinned
+suite notices them too).  `regress/*.diff` re-introduce the
 defects repaired by the fix: commits.
 """
 
@@ -43,6 +45,7 @@ R('C04', 'regress-D5-interval-minus-date', 'ff3b2d3-reject-interval---date-at-co
   ('R-TYPESAFE', 'operator:Sub[relativedelta,date]'))
 R('C04', 'regress-D6-sum-bool', '8458139-sum---of-a-boolean-expression-is-an-int.diff',
   ('R-DTYPE', 'aggregate:sum(int)'))
+R('C04', 'regress-D31-bool-of-inventory', 'c1a0ce4-bool---of-an-inventory-is-NULL.diff', ('R-TYPESAFE', 'function:bool('))
 R('C04', 'regress-D26-date-bin-null-stride', 'b091713-date-bin---with-an-invalid-stride-string-is-NULL.diff',
   ('R-TYPESAFE', 'function:date_bin(str, date, date)'))
 M('C04', 'date_diff-returns-timedelta', QE,
@@ -600,6 +603,15 @@ R('C10', 'regress-D17-iter-does-not-consume', 'd1b1502-iterating-over-a-cursor-c
   ('R-FETCHSIB', 'Cursor.__iter__'))
 R('C10', 'regress-D18-rowcount-shrinks', 'e5a17e6-Cursor-rowcount-is-the-number-of-rows-produced-by-.diff',
   ('R-ROWCOUNT', 'Cursor.rowcount'))
+M('C10', 'execute-restarts-rowcount-before-executing', CU,
+  "        description, rows = query_execute.execute_query(query)\n        self._description = description",
+  "        self._rowcount = -1\n        description, rows = query_execute.execute_query(query)\n        self._description = description",
+  ('R-RESET', 'Cursor.execute'))
+M('C10', 'fetchall-resets-arraysize', CU,
+  "        rows = self._rows\n        self._rows = []\n        self._pos += len(rows)",
+  "        rows = self._rows\n        self._rows = []\n        self.arraysize = 1\n        self._pos += len(rows)", ('R-FETCHSIB', 'Cursor.fetchall'))
+M('C10', 'column-strips-name', CU,
+  "        self._name = name\n", "        self._name = name.strip()\n", ('R-COLUMN7', 'Column.__init__'))
 M('C10', 'fetchmany-forgets-position', CU,
   "        rows = self._rows[:n]\n        self._rows = self._rows[n:]\n        self._pos += len(rows)\n        return rows",
   "        rows = self._rows[:n]\n        self._rows = self._rows[n:]\n        return rows", ('R-FETCHSIB', 'Cursor.fetchmany'))
@@ -694,6 +706,7 @@ T('C17', 'twin-rename-local', NU,
 # ---------------------------------------------------------------------- C18
 R('C18', 'regress-D20-int-overflow', '83e742f-int---of-an-infinite-decimal-is-NULL.diff', ('R-CASTTOTAL', 'function:int('))
 R('C18', 'regress-D21-date-overflow', '040101f-date-y--m--d--with-out-of-range-integers-is-NULL.diff', ('R-CASTTOTAL', 'function:date(int, int, int)'))
+R('C18', 'regress-D31-bool-of-inventory', 'c1a0ce4-bool---of-an-inventory-is-NULL.diff', ('R-CASTTOTAL', 'function:bool('))
 R('C18', 'regress-D28-date-bin-month-boundary', 'd58f907-date_bin-month-boundary.diff', ('R-BINFLOOR', 'date_bin'))
 T('C18', 'twin-date-bin-truncate-then-correct', QE,
   "        modulo = diff % seconds\n        delta = diff - modulo\n", "        delta = int(diff / seconds) * seconds\n        modulo = diff - delta\n")
@@ -1102,16 +1115,16 @@ T('C11', 'twin-typed-columns-renames-normalised', SB,
 BI = 'beanquery/__init__.py'
 M('C10', 'connection-attach-drops-keywords', BI,
   "            self.attach(dsn, **kwargs)", "            self.attach(dsn)",
-  ('R-CONNECTION', 'Connection.__init__'))
+  ('R-CONNECTION', 'Connection.__init__'), also_caught_by_suite=True)
 M('C10', 'connection-source-by-path', BI,
   "        scheme = urlparse(dsn).scheme\n", "        scheme = urlparse(dsn).path or urlparse(dsn).scheme\n",
-  ('R-CONNECTION', 'Connection.attach'))
+  ('R-CONNECTION', 'Connection.attach'), also_caught_by_suite=True)
 M('C10', 'connection-close-drops-tables', BI,
   "        # Required by the DB-API.\n        pass", "        # Required by the DB-API.\n        self.tables.clear()",
   ('R-CONNECTION', 'Connection.close'))
 M('C10', 'connection-compile-without-context', BI,
   "        return compiler.compile(self, query)", "        return compiler.compile(Connection(), query)",
-  ('R-CONNECTION', 'Connection.compile'))
+  ('R-CONNECTION', 'Connection.compile'), also_caught_by_suite=True)
 M('C20', 'connection-shared-option-dict', BI,
   "    def __init__(self, dsn=None, **kwargs):\n        self.tables = {'': tables.NullTable()}\n        self.options = {}", "    def __init__(self, dsn=None, _options={}, **kwargs):\n        self.tables = {'': tables.NullTable()}\n        self.options = _options",
   ('R-CONNECTION', 'Connection.__init__'))
